@@ -877,10 +877,10 @@ def rule_r1b(F, rep):
 
 
 def run(F, rep, tier):
-    rule_r1(F, rep)
-    rule_r1b(F, rep)
-    rule_r2(F, rep)
-    rule_r3(F, rep)
+    rep.attempt(rule_r1, F, rep)
+    rep.attempt(rule_r1b, F, rep)
+    rep.attempt(rule_r2, F, rep)
+    rep.attempt(rule_r3, F, rep)
     from . import casts
-    casts.rule(F, rep, "C06.R4")
+    rep.attempt(casts.rule, F, rep, "C06.R4")
     return EXPLANATION
